@@ -136,7 +136,10 @@ class Client:
                 conn.putheader("Content-Length", str(len(wire)))
             conn.endheaders()
             if wire:
-                conn.send(wire)
+                try:
+                    conn.send(wire)
+                except (BrokenPipeError, ConnectionResetError):
+                    pass          # the server answered before reading the whole body; its response may still be readable
             r = conn.getresponse()
             data = r.read()
             rr = Resp(r.status, r.getheaders(), data)
